@@ -86,6 +86,7 @@ class Ctx:
         except ValueError:
             self.seed = 20260926
         self.t0 = time.time()
+        self.floors = {}
         self.violations = []      # (what, replay_path, found_input: bool)
         self._keys = {}
         self._keys_path = {}
@@ -133,7 +134,21 @@ class Ctx:
         return path
 
     # ---------------------------------------------------------------- finishing
+    def floor(self, name, value):
+        """coverage floor: `value` (a count measured on this run) must be positive, else the run shows nothing"""
+        self.floors[name] = value
+
     def finish(self, level="proof"):
+        # coverage floors: a run in which nothing was generated / judged / compared must not look like a pass
+        if not self.violations:
+            fl = dict(self.floors)
+            for k in ("evaluations", "distinct_nontrivial", "traces_validated_against_impl"):
+                if k in self.cov and isinstance(self.cov[k], int):
+                    fl.setdefault(k, self.cov[k])
+            empty = sorted(k for k, v in fl.items() if not v)
+            if empty:
+                self.violation("coverage floor: this run measured 0 for %s - nothing is shown about the property" % ", ".join(empty),
+                               "coverage floor: %s\n" % ", ".join(empty), found_input=False)
         wall = time.time() - self.t0
         cov = dict(self.cov)
         n_obl = len(self.obligations)
